@@ -51,6 +51,14 @@ func witnesses() map[string]func(c *core.Case) {
 		"serve-nil:iq:no-payload": w1(
 			"<iq type='get' id='w1'" + wFrom + "/>"),
 
+		// the consumer of a tracked history query closes its iterator while a
+		// result is being handed to it
+		"stall:history.(*Handler).HandleMessage:chan-send": func(c *core.Case) {
+			res := "<message id='w1'" + wFrom + "><result xmlns='urn:xmpp:mam:2' queryid='q1' id='1'><forwarded xmlns='urn:xmpp:forward:0'><message xmlns='jabber:client' type='chat'><body>x</body></message></forwarded></result></message>"
+			runScript(c, &script{Workload: 1, Rule: "witness", Close: true, HistClose: 1, Steps: []step{
+				{K: "act", Act: "hist.fetch"}, {K: "send", Raw: res}, {K: "send", Raw: res}}})
+		},
+
 		// --- request helpers (workload 2)
 		"panic:unmarshalIQ:type-assert": w2("version.Get",
 			"<iq type='result' id='{id}'"+wSrv+">x</iq>"),
